@@ -1,6 +1,237 @@
-/- stub: property C09 has no model driver yet -/
-namespace ActixModel.Drv.C09
+import ActixModel.Util
+import ActixModel.Model.Route
+import ActixModel.Model.RouteMini
+/-
+Line-protocol driver for C09.  One case = one route table and one or more requests:
 
-def run (_line : String) : String := "unimplemented"
+  case    := app (' ;; ' request)+
+  app     := 'app' attr* '{' node* '}'
+  node    := 's:'PAT attr* '{' node* '}'            web::scope(PAT)…
+           | 'r:'PAT('|'PAT)* attr* '(' route* ')'  web::resource(PAT | [PAT,…])…
+           | 't:'PAT route                          App::route / Scope::route(PAT, route)
+  attr    := 'g='GUARD | 'd='NAT | 'df='NAT         .guard(..) | .app_data(Marker(n)) | .default_service(h n)
+  route   := ('*' | GUARD('&'GUARD)*) '>' NAT       web::route().guard(..)….to(handler NAT)
+  GUARD   := 'M~'method | 'H~'name'~'value | 'O~'host | 'A('GUARD(','GUARD)*')' | 'Y('…')' | 'N('GUARD')'
+  request := METHOD TARGET (name'='value)*          headers, e.g. host=ex1
+
+Output per request: `<who> mi=[k=v,…] un=<unprocessed> d=<marker|-> mp=<match_pattern|->`, where
+`who` is `h<n>` (handler), `df<n>` (a registered default service), `404`, `405`; requests are joined
+by ` | `.  The implementation side (`harness/src/props/c09.rs`) parses the same grammar.
+-/
+namespace ActixModel.Drv.C09
+open ActixModel.Util ActixModel.Route ActixModel.RouteMini
+
+/-- driver-side pattern: parsed alternatives + the registered text of the first one (for
+`match_pattern`) -/
+structure DPat where
+  alts : MiniPat
+  text : String
+
+def dMatch : Matcher DPat := fun p isPrefix s => miniMatch p.alts isPrefix s
+
+/-! ### guards -/
+
+def isAtomEnd (c : Char) : Bool := c == ',' || c == ')' || c == '&' || c == '>' || c == '~'
+
+def spanAtom (s : Chars) : String × Chars :=
+  (String.ofList (s.takeWhile (fun c => !isAtomEnd c)), s.dropWhile (fun c => !isAtomEnd c))
+
+mutual
+def parseGuardF : Nat → Chars → Option (Guard × Chars)
+  | 0, _ => none
+  | f + 1, 'A' :: '(' :: rest => (parseGuardsF f rest []).map fun (gs, r) => (.all gs, r)
+  | f + 1, 'Y' :: '(' :: rest => (parseGuardsF f rest []).map fun (gs, r) => (.any gs, r)
+  | f + 1, 'N' :: '(' :: rest =>
+    match parseGuardF f rest with
+    | some (g, ')' :: r) => some (.not g, r)
+    | _ => none
+  | _ + 1, 'M' :: '~' :: rest => let (m, r) := spanAtom rest; some (.method m, r)
+  | _ + 1, 'O' :: '~' :: rest => let (h, r) := spanAtom rest; some (.host h, r)
+  | _ + 1, 'H' :: '~' :: rest =>
+    let (k, r) := spanAtom rest
+    match r with
+    | '~' :: r' => let (v, r'') := spanAtom r'; some (.header k v, r'')
+    | _ => none
+  | _ + 1, _ => none
+/-- `g (',' g)* ')'` -/
+def parseGuardsF : Nat → Chars → List Guard → Option (List Guard × Chars)
+  | 0, _, _ => none
+  | f + 1, s, acc =>
+    match parseGuardF f s with
+    | some (g, ',' :: r) => parseGuardsF f r (g :: acc)
+    | some (g, ')' :: r) => some ((g :: acc).reverse, r)
+    | _ => none
+end
+
+def parseGuard (s : String) : Option Guard :=
+  match parseGuardF (s.length + 1) s.toList with
+  | some (g, []) => some g
+  | _ => none
+
+/-- `*>7`, `M~GET>1`, `M~GET&H~x-a~1>2` -/
+def parseRouteF : Nat → Chars → List Guard → Option Route
+  | 0, _, _ => none
+  | f + 1, s, acc =>
+    match parseGuardF (s.length + 1) s with
+    | some (g, '&' :: r) => parseRouteF f r (g :: acc)
+    | some (g, '>' :: r) => (String.ofList r).toNat?.map fun h => ⟨(g :: acc).reverse, h⟩
+    | _ => none
+
+def parseRoute (t : String) : Option Route :=
+  match t.toList with
+  | '*' :: '>' :: r => (String.ofList r).toNat?.map fun h => ⟨[], h⟩
+  | s => parseRouteF (s.length + 1) s []
+
+/-! ### table -/
+
+structure Attrs where
+  guards : List Guard := []
+  data : Option Nat := none
+  dflt : Option Nat := none
+
+def parseAttrs : List String → Attrs → Option (Attrs × List String)
+  | [], a => some (a, [])
+  | t :: rest, a =>
+    if t.startsWith "g=" then
+      match parseGuard (t.drop 2).toString with
+      | some g => parseAttrs rest { a with guards := a.guards ++ [g] }
+      | none => none
+    else if t.startsWith "df=" then
+      match (t.drop 3).toString.toNat? with
+      | some n => parseAttrs rest { a with dflt := some n }
+      | none => none
+    else if t.startsWith "d=" then
+      match (t.drop 2).toString.toNat? with
+      | some n => parseAttrs rest { a with data := some n }
+      | none => none
+    else some (a, t :: rest)
+
+def parseRoutes : List String → List Route → Option (List Route × List String)
+  | [], _ => none
+  | ")" :: rest, acc => some (acc.reverse, rest)
+  | t :: rest, acc =>
+    match parseRoute t with
+    | some r => parseRoutes rest (r :: acc)
+    | none => none
+
+def splitOnChar (sep : Char) : Chars → Chars → List Chars → List Chars
+  | [], cur, acc => (cur.reverse :: acc).reverse
+  | c :: rest, cur, acc =>
+    if c == sep then splitOnChar sep rest [] (cur.reverse :: acc) else splitOnChar sep rest (c :: cur) acc
+
+/-- a scope's pattern: `ResourceDef::root_prefix` -/
+def scopePat (raw : String) : DPat :=
+  let p := ensureLeadingSlash raw.toList
+  { alts := [parsePattern p], text := String.ofList p }
+
+/-- a resource's pattern(s): `ResourceDef::new(ensure_leading_slash(..))` -/
+def resourcePat (raw : String) : DPat :=
+  let ps := (splitOnChar '|' raw.toList [] []).map ensureLeadingSlash
+  { alts := ps.map parsePattern, text := String.ofList (ps.headD []) }
+
+def parseNodes : Nat → List String → List (Node DPat) → Option (List (Node DPat) × List String)
+  | 0, _, _ => none
+  | _ + 1, [], _ => none
+  | f + 1, t :: rest, acc =>
+    if t == "}" then some (acc.reverse, rest)
+    else if t.startsWith "s:" then
+      match parseAttrs rest {} with
+      | some (a, "{" :: rest2) =>
+        match parseNodes f rest2 [] with
+        | some (kids, rest3) =>
+          parseNodes f rest3 (.scope (scopePat (t.drop 2).toString) a.guards a.data kids a.dflt :: acc)
+        | none => none
+      | _ => none
+    else if t.startsWith "r:" then
+      match parseAttrs rest {} with
+      | some (a, "(" :: rest2) =>
+        match parseRoutes rest2 [] with
+        | some (routes, rest3) =>
+          parseNodes f rest3 (.resource (resourcePat (t.drop 2).toString) a.guards a.data routes a.dflt :: acc)
+        | none => none
+      | _ => none
+    else if t.startsWith "t:" then
+      -- `App::route(path, route)`: `Resource::new(path).add_guards(route.take_guards()).route(route)`
+      match rest with
+      | rt :: rest2 =>
+        match parseRoute rt with
+        | some r =>
+          parseNodes f rest2 (.resource (resourcePat (t.drop 2).toString) r.guards none [⟨[], r.handler⟩] none :: acc)
+        | none => none
+      | [] => none
+    else none
+
+def parseApp (toks : List String) : Option (App DPat) :=
+  match toks with
+  | "app" :: rest =>
+    match parseAttrs rest {} with
+    | some (a, "{" :: rest2) =>
+      match parseNodes (rest2.length + 1) rest2 [] with
+      | some (kids, []) => if a.guards.isEmpty then some ⟨a.data, kids, a.dflt⟩ else none
+      | _ => none
+    | _ => none
+  | _ => none
+
+/-! ### requests -/
+
+def parseHeader (t : String) : Option (String × String) :=
+  let cs := t.toList
+  let k := cs.takeWhile (· != '=')
+  match cs.dropWhile (· != '=') with
+  | _ :: v => some (String.ofList k, String.ofList v)
+  | [] => none
+
+/-- `METHOD TARGET hdr*`; the path is the target up to `?`, requoted (`Url::new`) -/
+def parseReq (toks : List String) : Option Req :=
+  match toks with
+  | m :: target :: hs =>
+    let path := target.toList.takeWhile (· != '?')
+    some { method := m, path := requote path, headers := (hs.filter fun h => !h.startsWith "exp=").filterMap parseHeader }
+  | _ => none
+
+/-! ### rendering -/
+
+def showTarget : Target → String
+  | .handler n => "h" ++ toString n
+  | .dflt n => "df" ++ toString n
+  | .notFound => "404"
+  | .notAllowed => "405"
+
+/-- `match_pattern_by_resource_path`: concatenated patterns along the id path -/
+def patternPath : List (Node DPat) → List Nat → String
+  | _, [] => ""
+  | nodes, i :: is =>
+    match nodes[i]? with
+    | some (.scope p _ _ kids _) => p.text ++ patternPath kids is
+    | some (.resource p ..) => p.text
+    | none => "?"
+
+def showOutcome (app : App DPat) (req : Req) (o : Outcome) : String :=
+  let mi := (matchInfo req o).map fun (k, v) => k ++ "=" ++ String.ofList v
+  let d := match lookupData o with
+    | some n => toString n
+    | none => "-"
+  let mp := match o.target with
+    | .handler _ => patternPath app.children o.st.ids
+    | _ => "-"
+  showTarget o.target ++ " mi=[" ++ joinWith "," mi ++ "] un=" ++ String.ofList (unprocessed req o.st) ++
+    " d=" ++ d ++ " mp=" ++ mp
+
+def splitToks (sep : String) : List String → List String → List (List String) → List (List String)
+  | [], cur, acc => (cur.reverse :: acc).reverse
+  | t :: rest, cur, acc =>
+    if t == sep then splitToks sep rest [] (cur.reverse :: acc) else splitToks sep rest (t :: cur) acc
+
+def run (line : String) : String :=
+  match splitToks ";;" (words line) [] [] with
+  | tbl :: reqs =>
+    match parseApp tbl with
+    | none => "bad-table"
+    | some app =>
+      joinWith " | " (reqs.map fun r =>
+        match parseReq r with
+        | some req => showOutcome app req (routeApp dMatch app req)
+        | none => "bad-request")
+  | [] => "bad-case"
 
 end ActixModel.Drv.C09
